@@ -440,6 +440,47 @@ fn judge_c10(
     if !created.is_empty() || !deleted.is_empty() || changed.iter().any(|k| k != key) {
         v.push(("unrelated-note-touched".into(), format!("created {:?} deleted {:?} changed {:?}", created, deleted, changed)));
     }
+    // only the targeted list / section is rewritten: the blocks before and after the target keep their kind, their
+    // containers and their text (markers of a neighbouring list may change: two lists of one kind need different markers)
+    {
+        let atoms = &_scan.atoms;
+        let n_lines = before[key].lines().count();
+        let covers = |a: &mdscan::Atom| a.line == _line || (a.line < _line && before[key][..a.range.end.min(before[key].len())].lines().count() > _line);
+        let target: Option<(usize, usize)> = atoms.iter().position(|a| covers(a)).and_then(|ai| {
+            let a = &atoms[ai];
+            if kind.contains("section.list") {
+                let lvl = match a.kind { AKind::Heading(l) => l, _ => return None };
+                let end = atoms[ai + 1..].iter().position(|x| x.chain.is_empty() && matches!(x.kind, AKind::Heading(l) if l <= lvl)).map(|k| ai + 1 + k).unwrap_or(atoms.len());
+                Some((ai, end))
+            } else {
+                // the outermost list that holds the block
+                let depth = a.chain.iter().position(|c| matches!(c, mdscan::Cont::Item(..)))?;
+                let same_list = |x: &mdscan::Atom| {
+                    x.chain.len() > depth
+                        && x.chain[..depth] == a.chain[..depth]
+                        && matches!((&x.chain[depth], &a.chain[depth]), (mdscan::Cont::Item(o1, k1, _), mdscan::Cont::Item(o2, k2, _)) if o1 == o2 && k1 == k2)
+                };
+                let first = atoms.iter().position(|x| same_list(x))?;
+                let last = atoms.iter().rposition(|x| same_list(x))?;
+                Some((first, last + 1))
+            }
+        });
+        let _ = n_lines;
+        if let Some((i0, i1)) = target {
+            let desc = |a: &mdscan::Atom| format!("{}|{}|{}", a.chain_kinds(), a.kind.name(), a.text.split_whitespace().collect::<Vec<_>>().join(" "));
+            let after_scan = mdscan::scan(&after[key]);
+            let bd: Vec<String> = atoms.iter().map(desc).collect();
+            let ad: Vec<String> = after_scan.atoms.iter().map(desc).collect();
+            let tail = bd.len() - i1;
+            let head_ok = ad.len() >= i0 && ad[..i0] == bd[..i0];
+            let tail_ok = ad.len() >= tail && ad[ad.len() - tail..] == bd[i1..];
+            if !head_ok || !tail_ok {
+                let which = if !head_ok { "before" } else { "after" };
+                let i = if !head_ok { (0..i0).find(|&i| ad.get(i) != bd.get(i)).unwrap_or(0) } else { (0..tail).find(|&i| ad.get(ad.len().wrapping_sub(tail) + i) != bd.get(i1 + i)).map(|i| i1 + i).unwrap_or(i1) };
+                v.push(("rewrote-outside-target".into(), format!("{}: a block {} the target changed: {:?}", kind, which, bd.get(i))));
+            }
+        }
+    }
     // every word-run, link and nested block kept, in order
     let b = sigs(&before[key], key);
     let a = sigs(&after[key], key);
